@@ -44,8 +44,10 @@ enum Pos {
     TupleElem,
     SeqOfMaps,
     MapOfSeqs,
+    SeqOfVariants,
+    SeqOfOptions,
 }
-const POS_ALL: [Pos; 12] = [
+const POS_ALL: [Pos; 14] = [
     Pos::Root,
     Pos::SeqItem,
     Pos::MapValue,
@@ -58,6 +60,8 @@ const POS_ALL: [Pos; 12] = [
     Pos::TupleElem,
     Pos::SeqOfMaps,
     Pos::MapOfSeqs,
+    Pos::SeqOfVariants,
+    Pos::SeqOfOptions,
 ];
 
 #[derive(Clone, Debug, Serialize, Deserialize)]
@@ -241,6 +245,8 @@ where
             m.insert("k".to_string(), vec![v, second]);
             rt1(&m, o)
         }
+        Pos::SeqOfVariants => rt1(&vec![En::Nt(v.clone()), En::Sv { f: second.clone(), g: v }, En::Nt(second)], o),
+        Pos::SeqOfOptions => rt1(&vec![Some(v), None, Some(second)], o),
     }
 }
 
@@ -340,6 +346,12 @@ fn check_string(s: &str, pos: Pos, o: &SerOpts) -> Result<(), String> {
         Pos::TupleElem => U::Seq(vec![want.clone(), z]),
         Pos::SeqOfMaps => U::Seq(vec![kv(want.clone(), z)]),
         Pos::MapOfSeqs => U::Map(vec![(U::s("k"), U::Seq(vec![want.clone(), z]))]),
+        Pos::SeqOfVariants => U::Seq(vec![
+            U::Map(vec![(U::s("Nt"), want.clone())]),
+            U::Map(vec![(U::s("Sv"), U::Map(vec![(U::s("f"), z.clone()), (U::s("g"), want.clone())]))]),
+            U::Map(vec![(U::s("Nt"), z)]),
+        ]),
+        Pos::SeqOfOptions => U::Seq(vec![want.clone(), U::Null, z]),
     };
     if docs[0] != expect {
         return Err(format!(
@@ -383,18 +395,23 @@ fn check_case(c: &Case) -> Result<(), String> {
         Val::Bool(v) => rt(*v, !*v, c.pos, o).map(|_| ()),
         Val::Char(v) => rt(*v, 'z', c.pos, o).map(|_| ()),
         Val::Unit => {
-            if c.pos == Pos::MapKey {
+            if c.pos == Pos::MapKey || c.pos == Pos::SeqOfOptions {
                 return Ok(());
             }
             rt((), (), c.pos, o).map(|_| ())
         }
         Val::NoneStr => {
-            if c.pos == Pos::MapKey {
+            if c.pos == Pos::MapKey || c.pos == Pos::SeqOfOptions {
                 return Ok(());
             }
             rt(None::<String>, Some("z".to_string()), c.pos, o).map(|_| ())
         }
-        Val::SomeStr(s) => rt(Some(s.clone()), None::<String>, c.pos, o).map(|_| ()),
+        Val::SomeStr(s) => {
+            if c.pos == Pos::SeqOfOptions {
+                return Ok(());
+            }
+            rt(Some(s.clone()), None::<String>, c.pos, o).map(|_| ())
+        }
         Val::Bytes(b) => {
             if c.pos == Pos::MapKey {
                 return Ok(());
@@ -497,6 +514,11 @@ impl Property for C12 {
         if !c.opts.braces && matches!(&c.val, Val::Bytes(b) if b.is_empty()) {
             return vec!["empty_no_braces"];
         }
+        // open finding (C13): with indent_step = 1 nodes nested after a sequence dash are
+        // mis-indented; here that concerns the struct variant inside a sequence
+        if c.opts.indent == 1 && c.pos == Pos::SeqOfVariants {
+            return vec!["indent_step_1"];
+        }
         vec![]
     }
     fn shrink(c: &Case) -> Vec<Case> {
@@ -564,9 +586,9 @@ impl Property for C12 {
             let s = decode(total2 + k);
             for j in 0..combos {
                 let (pos, o) = if thorough {
-                    (POS_ALL[(j % 12) as usize], &fam[((k + j / 12 * 4 + j) % fam.len() as u64) as usize])
+                    (POS_ALL[(j as usize) % POS_ALL.len()], &fam[((k + j / 12 * 4 + j) % fam.len() as u64) as usize])
                 } else {
-                    (POS_ALL[((k + j * 5) % 12) as usize], &fam[((k / 12 + j * 3) % fam.len() as u64) as usize])
+                    (POS_ALL[((k + j * 5) as usize) % POS_ALL.len()], &fam[((k / 12 + j * 3) % fam.len() as u64) as usize])
                 };
                 let c = Case { val: Val::Str(s.clone()), pos, opts: o.clone() };
                 let nt = nontrivial(&c);
@@ -581,7 +603,7 @@ impl Property for C12 {
                     continue;
                 }
                 let s = decode(total2 + total3 + k);
-                let pos = POS_ALL[(k % 12) as usize];
+                let pos = POS_ALL[(k as usize) % POS_ALL.len()];
                 let o = &fam[((k / 12) % fam.len() as u64) as usize];
                 let c = Case { val: Val::Str(s), pos, opts: o.clone() };
                 let nt = nontrivial(&c);
@@ -608,6 +630,32 @@ impl Property for C12 {
                             let c = Case { val: Val::Str(s.clone()), pos, opts: o.clone() };
                             let nt = nontrivial(&c);
                             ctx.case("str-lexicon", &c, nt);
+                        }
+                    }
+                }
+            }
+        }
+        // every case pattern of the null / boolean / non-finite words
+        let mut idx = 0u64;
+        for w in ["null", "true", "false", "yes", "no", "on", "off", "y", "n", "nan", "inf", ".nan", ".inf", "-.inf"] {
+            let letters: Vec<usize> = w.char_indices().filter(|(_, c)| c.is_ascii_alphabetic()).map(|(i, _)| i).collect();
+            for mask in 0..(1u32 << letters.len()) {
+                let mut b = w.as_bytes().to_vec();
+                for (bit, &i) in letters.iter().enumerate() {
+                    if mask >> bit & 1 == 1 {
+                        b[i] = b[i].to_ascii_uppercase();
+                    }
+                }
+                let s = String::from_utf8(b).unwrap();
+                for &pos in POS_ALL.iter() {
+                    for (oi, o) in fam.iter().enumerate() {
+                        idx += 1;
+                        if !thorough && oi > 3 {
+                            continue;
+                        }
+                        if ctx.mine(idx) {
+                            let c = Case { val: Val::Str(s.clone()), pos, opts: o.clone() };
+                            ctx.case("str-case-variants", &c, true);
                         }
                     }
                 }
@@ -766,7 +814,7 @@ impl Property for C12 {
             let mut k = ctx.worker as u32;
             while k <= 0x10ffff {
                 if let Some(ch) = char::from_u32(k) {
-                    let c = Case { val: Val::Char(ch), pos: POS_ALL[(k % 12) as usize], opts: fam[((k / 12) as usize) % fam.len()].clone() };
+                    let c = Case { val: Val::Char(ch), pos: POS_ALL[(k as usize) % POS_ALL.len()], opts: fam[((k / 12) as usize) % fam.len()].clone() };
                     let nt = nontrivial(&c);
                     ctx.case("char-all", &c, nt);
                 }
